@@ -45,6 +45,11 @@ type Opts struct {
 	// StatsCarry is the ExprCnt already present in the Stats value handed to the
 	// Statistics option (a Stats value reused from an earlier parse).
 	StatsCarry uint64 `json:"stats_carry,omitempty"`
+	// SpareCap: the options are handed over in a slice with spare capacity, as a
+	// program does that keeps several option lists in one array
+	// (`common := make([]Option, 0, 8)`, `strict := append(common, MaxExpressions(n))`);
+	// the library has no business writing there.
+	SpareCap bool `json:"spare_cap,omitempty"`
 	// ReuseOptions: Option values are created once per process and value and
 	// applied to many parsers (an Option "returns the previous setting as an
 	// Option": the values are meant to be kept and re-applied).
@@ -166,6 +171,8 @@ type CallResult struct {
 	Backward    bool           `json:"backward,omitempty"`     // globalStore counter not monotone
 	Nested      int            `json:"nested,omitempty"`       // re-entrant parses made by code blocks
 	StatsDigest string         `json:"stats_digest,omitempty"` // the caller's Stats.ChoiceAltCnt after the parse
+	// OptsModified: the call wrote into the spare capacity of the option slice it was given.
+	OptsModified bool `json:"opts_modified,omitempty"`
 	Events      []kernel.Event `json:"events,omitempty"`
 	Injected    []InjectedInfo `json:"injected,omitempty"`
 	ctx         *kernel.Ctx
@@ -196,7 +203,7 @@ func (p *Parser) Exec(c *Call, cl *simrt.Client) *CallResult {
 	simrt.Yield(simrt.YEntry)
 	val, err, esc, cnt := p.Parse(c.Opts.FileName(), c.Input, &c.Opts, ctx)
 	simrt.Yield(simrt.YExit)
-	r := &CallResult{ctx: ctx, ExprCnt: cnt, Steps: cl.Steps - start, Aborted: cl.Aborted, Overflow: ctx.Overflow, Backward: ctx.Backward, Nested: ctx.NestedRuns, StatsDigest: ctx.StatsDigest}
+	r := &CallResult{ctx: ctx, ExprCnt: cnt, Steps: cl.Steps - start, Aborted: cl.Aborted, Overflow: ctx.Overflow, Backward: ctx.Backward, Nested: ctx.NestedRuns, StatsDigest: ctx.StatsDigest, OptsModified: ctx.OptsModified}
 	r.Value = kernel.Render(val)
 	r.ValueNil = val == nil
 	r.ErrNil = err == nil
